@@ -9,11 +9,20 @@ RULE = ("TLC explores ShedderImpl (bucket ring with lazy expiry + shouldDrop/hig
         "(buckets, bucket length, cpu threshold) geometries incl. the default one, a ShedderGroup with a decoy key "
         "and a disabled (nop) shedder, with in-flight targets wandering around the capacity estimate and gaps "
         "placed on bucket edges, window lengths and the 1 s cool-off boundary (+-1 ms); rounds of truly parallel "
-        "Allow / Pass / Fail calls at a standing clock; (thorough) histories through rest SheddingHandler and the "
-        "zRPC UnarySheddingInterceptor with gated handlers. Every recorded trace is validated by TLC against "
-        "Shedder.tla; distinct = distinct operation histories executed.")
+        "Allow / Pass / Fail calls at a standing clock. Request level (both tiers): TLC explores ShedderWrapImpl (the "
+        "control flow of the shedding middlewares -- Allow, handler ending ok / failure answer / other error / panic, "
+        "deferred Pass|Fail, return -- over any lawful shedder, in lock-step with ShedderWrap.tla) and prints one "
+        "request-level history per distinct reachable state; each is replayed through the real rest SheddingHandler "
+        "(alone, in front of TimeoutHandler, in front of TimeoutHandler+RecoverHandler, with a disabled shedder) and the "
+        "real zRPC UnarySheddingInterceptor (alone, inside Recover->Shedding->Timeout, with a disabled shedder) with "
+        "gated handlers ending in 2xx/3xx/4xx/503/5xx/panic/abort resp. nil/DeadlineExceeded (bare, wrapped, joined)/"
+        "other errors/status errors/panics/cancelled or expired contexts; plus seeded random request-level histories "
+        "with failure-heavy and panic-heavy outcome profiles. Every recorded trace is validated by TLC against "
+        "Shedder.tla resp. ShedderWrap.tla; distinct = distinct operation histories executed.")
 
+import concurrent.futures
 import os
+import threading
 
 import vlib
 
@@ -21,6 +30,7 @@ FAM = "shedder"
 PKG = "core/load"
 DRV = ["zz_verif_shedder_test.go"]
 TR = ("ShedderTrace", "ShedderTrace.cfg")
+WTR = ("ShedderWrapTrace", "ShedderWrapTrace.cfg")
 
 
 def _split(tr, max_events):
@@ -46,6 +56,32 @@ def _val(run, tr, label, kind, max_events=50000):
     return ok
 
 
+def _small_mcs(run, items):
+    """Model-check small configurations four at a time, one TLC worker each.  Run.tmp hands out numbered
+    scratch names; serialise it while several TLC runs are being set up."""
+    lock = threading.Lock()
+    orig = run.tmp
+
+    def tmp(name):
+        with lock:
+            return orig(name)
+    run.tmp = tmp
+    try:
+        with concurrent.futures.ThreadPoolExecutor(max_workers=4) as ex:
+            futs = [ex.submit(run.model_check, FAM, mod, cfg, workers=1, expect=expect, note=note)
+                    for mod, cfg, expect, note in items]
+            errs = []
+            for f in futs:
+                try:
+                    f.result()
+                except vlib.Infra as e:       # report the first one after every run has ended
+                    errs.append(e)
+            if errs:
+                raise errs[0]
+    finally:
+        del run.tmp
+
+
 def check(run):
     thorough = run.tier == "thorough"
     run.assumptions += [
@@ -58,7 +94,14 @@ def check(run):
         "empty) / bucket ms, at least 1; moving average 0.9/0.1 updated on every resolution (fixed point x1e5; "
         "'must shed' needs the average to clear the estimate by 2e-4; bucket averages may round either way; "
         "exact ties may go either way; exactly 1000 ms after the latest overloaded Allow either answer)",
-        "white-box: flying / avgFlying are read after each call (reflect in the middleware drivers)",
+        "white-box: flying / avgFlying are read after each call (through an exported accessor overlaid into core/load "
+        "for the middleware drivers)",
+        "request level: a recording shedder (wrapping the real one) logs the Allow / Pass / Fail the middleware performs; "
+        "a shim around what the middleware calls as its handler logs, in a defer, how it ended (as observed); handlers "
+        "are gated so that one thing happens at a time; contexts are ended by hand (no wall clock)",
+        "request level: which of Pass / Fail a wrapper chooses is left free (the statement does not say); demanded: one "
+        "Allow per request, the promise resolved exactly once, after the wrapper's handler ended (return, error or "
+        "panic) and before the wrapper gives control back; in flight = handed out - resolved",
         "overlapping calls: only the 'sheds only if' half and conservation are demanded; the CPU verdict is "
         "constant within a burst (ShedderRaceMixed.cfg documents the design-level corner otherwise)",
         "harness emit order is one total order; aStart before / aEnd after the library call",
@@ -72,23 +115,35 @@ def check(run):
                     note="ring + shouldDrop obey Shedder.tla for factors 0.1/0.5/1; NB=3, <=4 in flight, 7 ops")
     run.model_check(FAM, "ShedderImpl", "ShedderImplMC2.cfg", workers=w,
                     note="same with a large default estimate (the 10 % floor binds)")
-    run.model_check(FAM, "ShedderImpl", "ShedderImplBugNoFloor.cfg", workers=w, expect="violation",
-                    note="overload factor without its lower bound 0.1 violates Allowed")
-    run.model_check(FAM, "ShedderImpl", "ShedderImplBugCurrent.cfg", workers=w, expect="violation",
-                    note="Reduce not ignoring the current bucket violates Agree")
-    run.model_check(FAM, "ShedderRace", "ShedderRace.cfg", workers=w,
-                    note="non-atomic Allow, 3 overloaded calls + 2 resolutions racing: every shed linearisable, counter conserved")
-    run.model_check(FAM, "ShedderRace", "ShedderRaceHot.cfg", workers=w, note="same, not overloaded but hot")
-    run.model_check(FAM, "ShedderRace", "ShedderRaceCold.cfg", workers=w, note="same, cool-off expired")
-    run.model_check(FAM, "ShedderRace", "ShedderRaceMixed.cfg", workers=w, expect="violation",
-                    note="design-level: mixed CPU verdicts across an expiring cool-off: a hot shed the law does not "
-                         "see (not reproduced on the code; the concurrent driver keeps the verdict constant per burst)")
+    # the small configurations (each well under 20 000 states; the JVM start dominates): one TLC worker each,
+    # four at a time -- the same four cores a 4-worker run would use
+    small = [
+        ("ShedderImpl", "ShedderImplBugNoFloor.cfg", "violation", "overload factor without its lower bound 0.1 violates Allowed"),
+        ("ShedderImpl", "ShedderImplBugCurrent.cfg", "violation", "Reduce not ignoring the current bucket violates Agree"),
+        ("ShedderRace", "ShedderRace.cfg", "ok",
+         "non-atomic Allow, 3 overloaded calls + 2 resolutions racing: every shed linearisable, counter conserved"),
+        ("ShedderRace", "ShedderRaceHot.cfg", "ok", "same, not overloaded but hot"),
+        ("ShedderRace", "ShedderRaceCold.cfg", "ok", "same, cool-off expired"),
+        ("ShedderRace", "ShedderRaceMixed.cfg", "violation",
+         "design-level: mixed CPU verdicts across an expiring cool-off: a hot shed the law does not "
+         "see (not reproduced on the code; the concurrent driver keeps the verdict constant per burst)"),
+        ("ShedderWrapImpl", "ShedderWrapImplBugInline.cfg", "violation",
+         "request level: resolution in line after handler() instead of in a defer: a panicking handler leaks its promise"),
+    ]
+    if thorough:
+        small += [
+            ("ShedderImpl", "ShedderImplBugOr.cfg", "violation", "shouldDrop with || instead of && violates Allowed"),
+            ("ShedderImpl", "ShedderImplBugFailLeak.cfg", "violation", "Fail not decrementing violates Agree"),
+            ("ShedderWrapImpl", "ShedderWrapImplBugDouble.cfg", "violation",
+             "request level: Fail on a failure answer and the deferred Pass: resolved twice"),
+            ("ShedderWrapImpl", "ShedderWrapImplBugEarly.cfg", "violation",
+             "request level: promise passed before the handler has run"),
+            ("ShedderWrapImpl", "ShedderWrapImplBugErrLeak.cfg", "violation",
+             "request level: early return on a handler error skips the resolution"),
+        ]
+    _small_mcs(run, small)
     if thorough:
         run.model_check(FAM, "ShedderImpl", "ShedderImplMCt.cfg", workers=w, timeout=1500, note="same as MC, 8 ops")
-        run.model_check(FAM, "ShedderImpl", "ShedderImplBugOr.cfg", workers=w, expect="violation",
-                        note="shouldDrop with || instead of && violates Allowed")
-        run.model_check(FAM, "ShedderImpl", "ShedderImplBugFailLeak.cfg", workers=w, expect="violation",
-                        note="Fail not decrementing violates Agree")
     # spec -> code: one history per distinct reachable model state
     gens = [("ShedderImplGenAq.cfg", 250, -1000000000, "genA")]
     if thorough:
@@ -105,35 +160,73 @@ def check(run):
     # code -> spec
     env = {"VERIF_C02_HIST": 400, "VERIF_C02_LEN": 1000, "VERIF_C02_CHIST": 16, "VERIF_C02_ROUNDS": 50, "VERIF_C02_G": 5, "VERIF_C02_STORM": 30} \
         if thorough else \
-          {"VERIF_C02_HIST": 66, "VERIF_C02_LEN": 500, "VERIF_C02_CHIST": 8, "VERIF_C02_ROUNDS": 40, "VERIF_C02_G": 4, "VERIF_C02_STORM": 25}
+          {"VERIF_C02_HIST": 46, "VERIF_C02_LEN": 500, "VERIF_C02_CHIST": 5, "VERIF_C02_ROUNDS": 32, "VERIF_C02_G": 4, "VERIF_C02_STORM": 25}
     tr = run.go_driver(PKG, DRV, "TestVerifC02Random$", env=env)
     _val(run, tr, "random", "history")
     tr = run.go_driver(PKG, DRV, "TestVerifC02Conc$", env=env)
     _val(run, tr, "concurrent", "history", max_events=25000)
-    if thorough:
-        exp = {os.path.join(vlib.REPO, "core/load/zz_verif_c02_export.go"):
-               os.path.join(vlib.OVERLAY, "core/load/zz_verif_c02export_test.go")}
-        for pkg, f, test, label in [
-                ("rest/handler", "zz_verif_shedding_test.go", "TestVerifC02SheddingHandler$", "rest-handler"),
-                ("zrpc/internal/serverinterceptors", "zz_verif_shedding_test.go", "TestVerifC02Interceptor$", "zrpc-server")]:
-            tr = run.go_driver(pkg, [f], test, extra_overlay=exp)
-            _val(run, tr, label, "wrapper")
+    _wrappers(run, thorough, w)
+
+
+def _wrappers(run, thorough, w):
+    """Request level: the promise-resolution protocol of the REST / zRPC shedding middlewares."""
+    # design level: the middleware control flow in lock-step with ShedderWrap.tla, on top of the law
+    run.model_check(FAM, "ShedderWrapImpl", "ShedderWrapImplMCt.cfg" if thorough else "ShedderWrapImplMC.cfg", workers=w,
+                    timeout=1500,
+                    note="wrapper control flow (Allow; handler ends ok / failure answer / other error / panic; deferred "
+                         "Pass|Fail; return) for interleaved requests over any lawful shedder: every admitted request "
+                         "resolved exactly once after its handler ended and before the wrapper returns; in flight = "
+                         "handed out - resolved = requests holding a promise; drained wrappers leave nothing in flight")
+    # spec -> code -> spec: one request-level history per distinct reachable model state, replayed through the real
+    # middlewares in every mode, plus seeded random request-level histories; validated against ShedderWrap.tla
+    beh = run.generate(FAM, "ShedderWrapImpl", "ShedderWrapImplGent.cfg" if thorough else "ShedderWrapImplGen.cfg", workers=1)
+    for b in beh:
+        run.distinct.add(("genW", str(b)))
+    run.evaluations += len(beh)
+    exp = {os.path.join(vlib.REPO, "core/load/zz_verif_c02_export.go"):
+           os.path.join(vlib.OVERLAY, "core/load/zz_verif_c02export_test.go")}
+    env = {"VERIF_C02_WHIST": 40, "VERIF_C02_WLEN": 150} if thorough else {"VERIF_C02_WHIST": 12, "VERIF_C02_WLEN": 60}
+    env["VERIF_C02_UNIT"] = 250
+    for pkg, f, test, label in [
+            ("rest/handler", "zz_verif_shedding_test.go", "TestVerifC02(WrapReplay|SheddingHandler)$", "rest-handler"),
+            ("zrpc/internal/serverinterceptors", "zz_verif_shedding_test.go", "TestVerifC02(WrapReplay|Interceptor)$",
+             "zrpc-server")]:
+        tr = run.go_driver(pkg, [f], test, inp=beh, env=env, extra_overlay=exp)
+        n0 = run.traces
+        run.validate(FAM, WTR[0], WTR[1], tr, label=label)  # one event = one state: vlib bounds a batch at 25000 lines
+        n = run.traces - n0
+        run.evaluations += n
+        for i in range(n):
+            run.distinct.add(("wrapper", label, run.seed, i))
 
 
 LEVEL_TEXT = ("Exhaustive TLC model checking of the law (Shedder.tla: envelope consistent, conservation, no "
               "unjustified shed, incl. overlapping calls), of the implementation model in lock-step with it "
               "(ShedderImpl: bucket ring with lazy expiry + shouldDrop for every overload factor, NB=3, <=4 in flight, "
-              "7/8 operations) and of the non-atomic Allow (ShedderRace); plus conformance: TLC-generated state-cover "
-              "histories replayed on the real shedder and long random sequential / truly parallel histories "
-              "(thorough: also through the REST and zRPC shedding middlewares) validated by TLC against Shedder.tla.")
+              "7/8 operations), of the non-atomic Allow (ShedderRace) and of the middleware control flow in lock-step "
+              "with the request-level law (ShedderWrapImpl / ShedderWrap: every admitted request resolved exactly once "
+              "however its handler ends, in flight = handed out - resolved; 2-3 interleaved requests, 5-6 operations); "
+              "plus conformance: TLC-generated state-cover histories replayed on the real shedder and through the real "
+              "REST and zRPC shedding middlewares, long random sequential / truly parallel histories and random "
+              "request-level histories, validated by TLC against Shedder.tla / ShedderWrap.tla.")
 LEVEL_NOTE = ("Trusted: TLC/SANY, the Go toolchain, hook H1 (virtual clock), the harness emit order. The overload "
               "factor is not controlled: between 10 % and 100 % of the estimate any answer is accepted. Times are "
               "whole ms. Design level bounded to NB=3 buckets; real geometries (incl. 50 x 100 ms) are exercised "
               "through the real code only. For overlapping calls only the safety half and conservation are checked.")
-TECHNIQUE = ("TLA+ law (Shedder) + implementation model in lock-step (ShedderImpl) + race model (ShedderRace), TLC "
+TECHNIQUE = ("TLA+ law (Shedder, request level ShedderWrap) + implementation models in lock-step (ShedderImpl, "
+             "ShedderWrapImpl) + race model (ShedderRace), TLC "
              "exhaustive checks, TLC-generated replay, TLC trace validation with inferred sense/decide/apply points")
 DESIGN_REF = "DESIGN.md Part B C02"
 
 
 def replay(run, path):
-    run.replay(FAM, TR[0], TR[1], path)
+    # request-level traces (through the middlewares) belong to ShedderWrapTrace: the header of a replay file names
+    # the module that rejected it; a bare trace is recognised by its hin events
+    wrap = False
+    with open(path) as fh:
+        for ln in fh:
+            if 'ShedderWrapTrace' in ln or '"e":"hin"' in ln.replace(" ", ""):
+                wrap = True
+                break
+    m = WTR if wrap else TR
+    run.replay(FAM, m[0], m[1], path)
